@@ -96,9 +96,17 @@ func JudgeStoreQuery(rep Reporter, prop, store string, key []byte, reqHeight int
 					ffInStore = true
 				}
 			}
+			ext := false // some committed key extends the queried key
+			for _, k := range storeKeys {
+				if len(k) > len(key) && k[:len(key)] == string(key) {
+					ext = true
+				}
+			}
 			switch {
 			case pred != "" && len(pred) < len(key) && string(key[:len(pred)]) == pred:
 				what += "/predecessor-is-prefix-of-key"
+			case ext:
+				what += "/key-is-prefix-of-committed-key"
 			case ffInStore || allFF(key):
 				what += "/all-0xff-key"
 			default:
